@@ -190,7 +190,21 @@ def contract(qual, with_role, noraise=()):
             return True
         return any(i > ran[0][0] and "result" in e.kwargs for i, e in evs(st, "save"))
 
+    def writes_only_under_cache_dir(E, st, out):
+        # every path handed to a writing callee is this job's cache_dir (= cache_root/checksum, see Job.cache_dir)
+        ok = True
+        for e in st.trace:
+            if e.name in ("save", "record_error") and e.args:
+                ok = ok and is_z3(e.args[0]) and "attr.cache_dir" in e.args[0].sexpr()
+            if e.name == "os.chdir" and e.args and not e.raised:
+                a = e.args[0]
+                ok = ok and is_z3(a) and ("attr.cache_dir" in a.sexpr() or "ret.os.getcwd" in a.sexpr())
+            if e.name.endswith(".unlink"):
+                ok = ok and "self.cache_root" in e.label
+        return ok
+
     exits = [
+        ("writes-only-under-cache-dir", role("writes-only-under-cache-dir"), writes_only_under_cache_dir),
         ("job-dir-holds-result-after-execution", role("job-dir-holds-result-after-execution"), result_saved_after_execution),
         ("cwd-restored", role("cwd-restored"), cwd_restored),
         ("info-file-removed", role("info-file-removed"), info_file_removed),
